@@ -268,6 +268,11 @@ func init() {
 func nop(p *Path, _ *ssa.Function, _ []Value) Value { return nil }
 
 func intrinsicPrefix(name string) intrinsicFn {
+	if cachePrefix != nil && strings.Contains(name, "ristretto/v2.") {
+		if f := cachePrefix(name); f != nil {
+			return f
+		}
+	}
 	switch {
 	case strings.HasPrefix(name, "slices.SortFunc["), strings.HasPrefix(name, "slices.SortStableFunc["):
 		return sortFuncIntrinsic
